@@ -88,6 +88,10 @@ func ErrName(err error) string {
 		return "inuse"
 	case errors.Is(err, kv.ErrMergeIsProgress):
 		return "merging"
+	case errors.Is(err, kv.ErrNoEnoughSpaceForMerge):
+		return "nospace"
+	case errors.Is(err, kv.ErrMergeRatioUnreached):
+		return "ratio"
 	case errors.Is(err, kv.ErrIndexUpdateFailed):
 		return "indexfail"
 	case errors.Is(err, kv.ErrDataFileNotFound):
